@@ -233,6 +233,9 @@ pub trait Sut: Clone + Debug + PartialEq + Serialize + DeserializeOwned + Send +
         Ok(())
     }
     fn reset_remove_c(&mut self, _c: &Clk) {}
+    /// apply a remove whose context lies in the replica's future (what per-actor-ordered delivery produces when a
+    /// remove overtakes the adds it observed), so that the state holds pending removes; E2 workloads only
+    fn inject_future_remove(&mut self, _ctx: &Clk, _target: u8) {}
     /// dot the *real* derive_add_ctx would hand out to `actor` now (types with read contexts)
     fn next_dot(&self, _actor: A) -> Option<(DotT, Clk, Clk)> {
         None
